@@ -168,7 +168,7 @@ def make_case(seed, depth, flavour="basic"):
         if len(junk) >= 2:
             break
     case = {"seed": seed, "prog": prog, "core": core, "argt": argt, "rett": rett, "args": args, "stages": stages,
-            "univ": univ, "junk": junk, "ids": ids, "zero_len": any(l == 0 for l in lens), "keyseed": rng.randint(0, 10 ** 6),
+            "univ": univ, "junk": junk, "ids": ids, "zero_len": any(l == 0 for l in lens), "lens": list(lens), "keyseed": rng.randint(0, 10 ** 6),
             "sels": [gen_sel(rng, ids) for _ in range(3)], "rngseed": rng.randint(0, 10 ** 9), "flavour": flavour}
     return case
 
@@ -193,6 +193,161 @@ def walk(p):
 def has(core, kinds):
     return any(p[0] in kinds for p in walk(core))
 
+
+
+# ---------------------------------------------------------------------------
+# edit requests
+# ---------------------------------------------------------------------------
+EDIT_OK_UPDATE = ("dist", "static", "vmap", "scan", "mask", "dimap", "switch")
+EDIT_OK_REGEN = ("dist", "static", "scan", "dimap")
+
+
+def kinds_of(core):
+    return {p[0] for p in walk(core)}
+
+
+def realise_req(q):
+    import jax.numpy as jnp
+    from genjax import Update, Regenerate, EmptyRequest, StaticRequest, IndexRequest
+    k = q[0]
+    if k == "update": return Update(gfi.build_chm(q[1], q[2]))
+    if k == "regen": return Regenerate(gfi.realise_sel(q[1]))
+    if k == "empty": return EmptyRequest()
+    if k == "static": return StaticRequest({gfi.addr_name(a): realise_req(r) for a, r in q[1]})
+    if k == "index": return IndexRequest(jnp.array(q[1], dtype=jnp.int32), realise_req(q[2]))
+    raise ValueError(q)
+
+
+def c_req(q):
+    k = q[0]
+    if k == "update": return f"(QUpdate {c_entries(q[1])})"
+    if k == "regen": return f"(QRegen {c_sel(q[1])})"
+    if k == "empty": return "QEmpty"
+    if k == "static": return "(QStatic %s)" % clist([f"({gfi.c_addr(a)}, {c_req(r)})" for a, r in q[1]])
+    if k == "index": return f"(QIndex {cz(q[1])} {c_req(q[2])})"
+    raise ValueError(q)
+
+
+def flat_lookup(req, path):
+    """value a (backward) request would install at a full address; None = nothing; raises NotFlat"""
+    from genjax import Update, EmptyRequest, StaticRequest, IndexRequest
+    import numpy as np
+    if isinstance(req, Update):
+        v = gfi.lookup(req.constraint, path)
+        if isinstance(v, tuple):
+            raise AssertionError(f"lookup {path} -> {v}")
+        return v
+    if isinstance(req, EmptyRequest):
+        return None
+    if isinstance(req, StaticRequest):
+        for key, sub in req.addressed.items():
+            kt = key if isinstance(key, tuple) else (key,)
+            names = tuple(f"a{x}" for (kk, x) in path[:len(kt)] if kk == "s")
+            if len(path) >= len(kt) and all(c[0] == "s" for c in path[:len(kt)]) and names == kt:
+                return flat_lookup(sub, path[len(kt):])
+        return None
+    if isinstance(req, IndexRequest):
+        if path and path[0][0] == "i" and int(np.asarray(req.idx)) == path[0][1]:
+            return flat_lookup(req.request, path[1:])
+        return None
+    raise NotFlat(type(req).__name__)
+
+
+class NotFlat(Exception):
+    pass
+
+
+def observe_bwd(req, case):
+    try:
+        return {"flat": True, "look": [(p, flat_lookup(req, p)) for p in case["univ"]]}
+    except NotFlat:
+        return {"flat": False, "look": []}
+
+
+def tag_tree(t, changed):
+    """model tag tree of an argument of type t tagged uniformly"""
+    b = "true" if changed else "false"
+    if t in ("S", "B", "I"): return f"(TgLeaf {b})"
+    if t == "N": return "(TgNode [])"
+    if t[0] == "T": return "(TgNode %s)" % clist([tag_tree(x, changed) for x in t[1]])
+    if t[0] == "A":
+        et = t[2]
+        if et == "N": return "(TgNode [])"
+        if isinstance(et, tuple) and et[0] == "T":
+            return "(TgNode %s)" % clist([tag_tree(("A", t[1], x), changed) for x in et[1]])
+        return f"(TgLeaf {b})"
+    raise ValueError(t)
+
+
+def make_argdiffs(jargs, changed):
+    from genjax._src.core.compiler.interpreters.incremental import Diff
+    return tuple(Diff.unknown_change(x) if ch else Diff.no_change(x) for x, ch in zip(jargs, changed))
+
+
+def new_args(rng, case, G):
+    """(args, changed flags): honest tagging — a changed value is always tagged changed, an unchanged one either way"""
+    args, changed = [], []
+    for v, t in zip(case["args"], case["argt"]):
+        mode = rng.random()
+        if t == "I" or mode < 0.45:
+            args.append(v); changed.append(t != "I" and rng.random() < 0.3)
+        else:
+            nb = max([len(p[1]) for p in walk(case["core"]) if p[0] == "switch"] + [2])
+            nv = G.value(t, nb)
+            args.append(nv); changed.append(True)
+    return args, changed
+
+
+def gen_request(rng, case, present, kind):
+    core = case["core"]
+    if kind == "update":
+        ents = []
+        mode = rng.choice(["partial", "partial", "full", "empty"])
+        for (p, v) in present:
+            if mode == "empty": break
+            if mode == "full" or rng.random() < 0.5:
+                nv = v if rng.random() < 0.2 else rng.randint(-3, 3)
+                if rng.random() < 0.15:
+                    ents.append((p, ("M", rng.random() < 0.5, nv, "ar")))
+                else:
+                    ents.append((p, nv))
+        return ("update", ents, rng.choice([0, 0, 1]))
+    if kind == "regen":
+        return ("regen", rng.choice(case["sels"]) if rng.random() < 0.6 else gen_sel(rng, case["ids"]))
+    if kind == "empty":
+        return ("empty",)
+    if kind == "static":
+        m = []
+        for (a, g, es) in core[1]:
+            if rng.random() < 0.6:
+                pre = [("s", x) for x in a]
+                sub_present = [(p[len(pre):], v) for (p, v) in present if p[:len(pre)] == pre]
+                sub_case = dict(case); sub_case["core"] = g
+                kk = rng.choice(["update", "update", "empty"] + (["regen"] if kinds_of(g) <= set(EDIT_OK_REGEN) else []))
+                m.append((a, gen_request(rng, sub_case, sub_present, kk)))
+        return ("static", m)
+    if kind == "index":
+        n = case["lens"][0]
+        i = rng.randrange(n)
+        sub_present = [(p[1:], v) for (p, v) in present if p and p[0] == ("i", i)]
+        sub_case = dict(case); sub_case["core"] = core[2]
+        return ("index", i, gen_request(rng, sub_case, sub_present, "update"))
+    raise ValueError(kind)
+
+
+def edit_kinds(case):
+    core = case["core"]
+    ks = kinds_of(core)
+    out = []
+    if ks <= set(EDIT_OK_UPDATE):
+        out += ["update", "update", "empty"]
+    if ks <= set(EDIT_OK_REGEN):
+        out += ["regen", "regen"]
+    if core[0] == "static" and ks <= set(EDIT_OK_UPDATE) and "switch" not in ks:
+        out += ["static"]
+    if core[0] == "vmap" and case["lens"] and case["lens"][0] > 0 and kinds_of(core[2]) <= set(EDIT_OK_UPDATE):
+        out += ["index", "index"]
+    return out
 
 # ---------------------------------------------------------------------------
 # execution on the implementation
@@ -302,6 +457,70 @@ def run_case(case):
             if case["zero_len"] and r2[0] == "err" and r2[1] in ("EMissingAddress", "EType"):
                 r2 = ("known", "zero-length-assess", r2[2])
             steps.append({"kind": "assess_own", "ti": ti, "res": r2})
+    # 5. edits on the simulated trace (and chained on their results), each followed by assess and by its backward request
+    kinds = edit_kinds(case)
+    if kinds and not case["zero_len"]:
+        G = Gen(random.Random(case["rngseed"] + 1))
+        cur, cur_obs, cur_args, cur_jargs = tr0, o0, list(case["args"]), jargs
+        cur_ti = 0
+        for ei in range(2):
+            kind = rng.choice(kinds)
+            present = [(p, v) for (p, v) in cur_obs["look"] if v is not None and p in case["univ"]]
+            q = gen_request(rng, case, present, kind)
+            if kind in ("index",):
+                nargs, changed = list(cur_args), [False] * len(cur_args)
+            else:
+                nargs, changed = new_args(rng, case, G)
+                if has(core, ("switch",)):
+                    # the switch region: index (and the flag an or_else index is computed from) unchanged and tagged
+                    # NoChange (index changes: known finding K19)
+                    nargs = [(a0 if t in ("I", "B") else a1) for a0, a1, t in zip(cur_args, nargs, case["argt"])]
+                    changed = [(False if t in ("I", "B") else c_) for c_, t in zip(changed, case["argt"])]
+            eseed = case["keyseed"] + 101 * (ei + 1)
+            try:
+                njargs = tuple(gfi.to_jax(v, t, st) for v, t, st in zip(nargs, case["argt"], case["stages"]))
+            except Exception as e:
+                break
+
+            def do_edit():
+                req = realise_req(q)
+                ntr, w, rd, bwd = req.edit(jax.random.key(eseed), cur, make_argdiffs(njargs, changed))
+                return ntr, bwd, (observe(ntr, case), gfi.from_jax(w, "S"), observe_bwd(bwd, case))
+            r = guarded(do_edit)
+            step = {"kind": "edit", "ti": cur_ti, "seed": eseed, "req": q, "args": nargs, "changed": changed,
+                    "old_args": cur_args, "old_obs": cur_obs}
+            if r[0] == "err" and has(core, ("switch",)) and "Custom node type mismatch" in r[2]:
+                r = ("known", "switch-edit-retdiff", r[2])
+            if r[0] != "ok":
+                step["res"] = r
+                steps.append(step)
+                continue
+            ntr, bwd, ob = r[1]
+            step["res"] = ("ok", {"trace": ob[0], "weight": ob[1], "bwd": ob[2]})
+            steps.append(step)
+            traces.append(ntr)
+            new_ti = len(traces) - 1
+            edit_index = sum(1 for s_ in steps if s_["kind"] == "edit") - 1
+            # assess on own choices
+            if not no_assess:
+                r2 = guarded(lambda: g.assess(ntr.get_choices(), ntr.get_args()))
+                if r2[0] == "ok":
+                    try:
+                        r2 = ("ok", (gfi.from_jax(r2[1][0], "S"), gfi.from_jax(r2[1][1], case["rett"])))
+                    except AssertionError as e:
+                        r2 = ("inexact", str(e))
+                steps.append({"kind": "assess_own", "ti": new_ti, "res": r2})
+            # apply the backward request with the old arguments
+            bseed = eseed + 7
+            old_jargs = cur_jargs
+
+            def do_bwd():
+                btr, bw, _, _ = bwd.edit(jax.random.key(bseed), ntr, make_argdiffs(old_jargs, changed))
+                return (observe(btr, case), gfi.from_jax(bw, "S"))
+            rb = guarded(do_bwd)
+            steps.append({"kind": "bwd", "ei": edit_index, "seed": bseed, "res": rb, "fwd_weight": ob[1], "orig_obs": cur_obs,
+                          "req_kind": q[0]})
+            cur, cur_obs, cur_args, cur_jargs, cur_ti = ntr, ob[0], nargs, njargs, new_ti
     return {"steps": steps}
 
 
@@ -357,7 +576,7 @@ def c_args(case):
     return clist([c_val(v, t) for v, t in zip(case["args"], case["argt"])])
 
 
-def c_step(st, case):
+def c_step(st, case, tmap, emap):
     k = st["kind"]
     r = st["res"]
     if k == "sim":
@@ -366,12 +585,48 @@ def c_step(st, case):
         return (f"StGen {st['seed']}%N {c_entries(st['entries'])} {c_args(case)} "
                 f"{c_want(r, lambda o: '(' + c_tobs(o[0], case) + ', ' + cz(o[1]) + ')')}")
     if k == "assess_own":
-        return f"StAssessOwn {st['ti']}%nat {c_want(r, lambda o: '(' + cz(o[0]) + ', ' + c_val(o[1], case['rett']) + ')')}"
+        return f"StAssessOwn {tmap[st['ti']]}%nat {c_want(r, lambda o: '(' + cz(o[0]) + ', ' + c_val(o[1], case['rett']) + ')')}"
     if k == "project":
-        return f"StProject {st['ti']}%nat {c_sel(st['sel'])} {c_want(r, lambda o: cz(o))}"
+        return f"StProject {tmap[st['ti']]}%nat {c_sel(st['sel'])} {c_want(r, lambda o: cz(o))}"
+    if k == "edit":
+        args = clist([c_val(v, t) for v, t in zip(st["args"], case["argt"])])
+        tags = clist([tag_tree(t, ch) for t, ch in zip(case["argt"], st["changed"])])
+        def okfn(o):
+            b = o["bwd"]
+            look = clist([f"({c_path(p)}, {'None' if v is None else '(Some ' + cz(v) + ')'})" for (p, v) in b["look"]])
+            return f"({c_tobs(o['trace'], case)}, {cz(o['weight'])}, {{| b_flat := {cbool(b['flat'])}; b_look := {look} |}})"
+        return f"StEdit {tmap[st['ti']]}%nat {st['seed']}%N {c_req(st['req'])} {args} {tags} {c_want(r, okfn)}"
+    if k == "bwd":
+        return f"StBwd {emap[st['ei']]}%nat {st['seed']}%N {c_want(r, lambda o: '(' + c_tobs(o[0], case) + ', ' + cz(o[1]) + ')')}"
     raise ValueError(k)
 
 
+def shipped_steps(out):
+    """the steps that are compared with the model, with the trace / edit indices the model will see.
+    returns [(index in out['steps'], step, tmap, emap)]"""
+    tmap, emap, res = {}, {}, []
+    nt = ne = 0          # harness counters (successful trace-producing steps / edit steps)
+    mt = me = 0          # model counters
+    for i, s in enumerate(out["steps"]):
+        k, tag = s["kind"], s["res"][0]
+        ship = tag in ("ok", "err")
+        if k in ("assess_own", "project", "edit") and s["ti"] not in tmap:
+            ship = False
+        if k == "bwd" and s["ei"] not in emap:
+            ship = False
+        if ship:
+            res.append((i, s, dict(tmap), dict(emap)))
+        if k in ("sim", "gen", "edit") and tag == "ok":
+            if ship:
+                tmap[nt] = mt; mt += 1
+            nt += 1
+        if k == "edit":
+            if ship:
+                emap[ne] = me; me += 1
+            ne += 1
+    return res
+
+
 def c_case(case, out):
-    steps = [s for s in out["steps"] if s["res"][0] in ("ok", "err")]
-    return f"({c_gf(case['core'])},\n  {clist(['(' + c_step(s, case) + ')' for s in steps])})"
+    steps = shipped_steps(out)
+    return f"({c_gf(case['core'])},\n  {clist(['(' + c_step(s, case, tm, em) + ')' for (_, s, tm, em) in steps])})"
